@@ -6,6 +6,7 @@ open AgdbServer.Path
 #print axioms C26_owner_dirs_apart
 #print axioms C26_rejected
 #print axioms C26_rejected_rename
+#print axioms C26_only_valid_names_reach_the_pool
 #print axioms C26_traversal_counterexample
 #print axioms C26_escape_counterexample
 #print axioms C26_wal_collision_counterexample
